@@ -369,7 +369,7 @@ func genNQuery(r *Rng, depth int, only string) nq {
 }
 
 func runC20(t *Trace, r *Rng, tier string, _ []string) {
-	nCorp, nQ := 8, 60
+	nCorp, nQ := 24, 80
 	if tier == "thorough" {
 		nCorp, nQ = 100, 200
 	}
@@ -378,7 +378,7 @@ func runC20(t *Trace, r *Rng, tier string, _ []string) {
 			idx, err := bleve.NewUsing("", c20Mapping(nested), scorch.Name, scorch.Name, nil)
 			must(err)
 			nDocs := r.Range(4, 12)
-			oneSegment := ci%3 == 1 // many parents in one segment: cursors can lag by whole groups
+			oneSegment := ci%3 != 0 // many parents in one segment: cursors can lag by whole groups
 			if oneSegment {
 				nDocs = r.Range(10, 24)
 			}
